@@ -193,7 +193,7 @@ impl Property for C15 {
     }
 
     fn cases(tier: Tier) -> u32 {
-        tier.pick(30_000, 600_000)
+        tier.pick(30_000, 2_000_000)
     }
 
     fn run(case: &Case, ctx: &mut Ctx) {
